@@ -128,7 +128,7 @@ CLAIMED = {
          "a third of the shards with boundary values) are recorded step by step; after every accepted request, every lost association and every start TLC evaluates Up4Image!TablesAreImage "
          "(interfaces, sessions_uplink / sessions_downlink keys and buffer / tunnel-peer action, terminations key and drop / forward action with TEID, QFI and traffic class, one applications entry per distinct filter and one tunnel_peers "
          "entry per distinct GTP peer present iff used, meter cells bounded by the live QERs) and InterfacesThroughout.",
-         "Inside the envelope of DESIGN A.4 (one UE address and one downlink forwarding state per session, distinct application filters per direction, at most one QFI-carrying QER per PDR, closed gates only on that QER), checked as a structural invariant; "
+         "Inside the envelope of DESIGN 11.4 (one UE address and one downlink forwarding state per session, distinct application filters per direction, at most one QFI-carrying QER per PDR, closed gates only on that QER), checked as a structural invariant; "
          "applications priority and meter rates are not part of the image (C16 / not stated); histories are sampled. " + TRUST,
          "5 C04"),
  "C15": ("TLA+ R-spec Up4Image (identifier discipline: exclusive cells, nothing free while an entry uses it, no duplicates in pool queues) judged by TLC on switch state + guarded pool snapshot of the real agent under injected P4Runtime write failures",
